@@ -72,8 +72,16 @@ type fragReader struct {
 	rnd      *rand.Rand
 	reads    int
 	eofReads int
-	endMode  int // what the exhausted reader answers: 0 EOF, 1 connection reset, 2 panic (read attempt abandoned midway)
+	endMode  int // what the exhausted reader answers on EVERY later Read: 0 EOF, 1 connection reset, 2 panic (read attempt abandoned midway), 3 timeout (net.Error), 4 io.ErrNoProgress
 }
+
+type timeoutErr struct{}
+
+func (timeoutErr) Error() string   { return "i/o timeout" }
+func (timeoutErr) Timeout() bool   { return true }
+func (timeoutErr) Temporary() bool { return true }
+
+var endModeNames = []string{"EOF", "connection reset", "abandoned", "timeout", "io.ErrNoProgress"}
 
 type abandonSentinel struct{}
 
@@ -102,6 +110,10 @@ func (f *fragReader) Read(p []byte) (int, error) {
 			return 0, errConnReset
 		case 2:
 			panic(abandonSentinel{})
+		case 3:
+			return 0, timeoutErr{}
+		case 4:
+			return 0, io.ErrNoProgress
 		}
 		return 0, io.EOF
 	}
@@ -659,6 +671,8 @@ var opTable = func() []opSpec {
 	for _, v := range valueOps {
 		add(1, v, false)
 	}
+	add(1, "serve:buffered", false)
+	add(1, "serve:streamed", false)
 	add(1, "split:Request", false)
 	add(1, "split:Response", false)
 	return t
@@ -673,6 +687,7 @@ func TestC08(t *testing.T) {
 	r.Assume("multipart/form-data requests with Content-Length are pre-parsed by mime/multipart straight from the connection; it may stop anywhere between the closing boundary and head+Content-Length, so for those only the bound consumed <= head+Content-Length is judged (under-reading is not part of C08; counted as multipart_relaxed)")
 	r.Assume("under-consumption of a valid message is counted (underread_valid) but not judged: the property only forbids consuming beyond the message; Response.SkipBody=true is only used with messages that carry no body on the wire (HEAD semantics)")
 	r.Assume("re-use monitor: objects with a history of abandoned reads must behave like fresh ones; Reset() is always applied before ReadTrailer (which adds to existing fields by design) and before the low-level RequestHeader.Read+ContinueReadBodyStream pair (its documentation leaves resetting to the caller; without Reset a stale body stream of an abandoned attempt is still attached), otherwise in half of the cases")
+	r.Assume("persistent read errors: after the delivered prefix the underlying reader answers every Read with the same non-EOF error; a call that makes more than len(input)+64 such Reads is spinning (logical bound; the tick watchdog is only for loops that never read)")
 	r.Assume("streaming readers (ContinueReadBodyStream, Response.StreamBody) are watched for panics and non-termination only")
 
 	n := r.N(400_000, 8_000_000)
@@ -695,7 +710,9 @@ func TestC08(t *testing.T) {
 			s.op.Store(spec.name)
 			s.cur.Store(int64(i + 1))
 			s.beat.Add(1)
-			if strings.HasPrefix(spec.name, "split:") {
+			if strings.HasPrefix(spec.name, "serve:") {
+				serveErrorCase(r, i, spec.name == "serve:streamed")
+			} else if strings.HasPrefix(spec.name, "split:") {
 				splitCase(r, i, strings.TrimPrefix(spec.name, "split:"))
 			} else if spec.reader {
 				readerCase(r, i, spec.name)
@@ -715,6 +732,9 @@ func TestC08(t *testing.T) {
 	r.Require("value_parser_calls", n/10)
 	r.Require("reused_object_reads", n/4)
 	r.Require("split_messages", n/8)
+	r.Require("persistent_error_reads", n/5)
+	r.Require("persistent_error_in_trailer", n/100)
+	r.Require("persistent_error_server_conns", n/20)
 	r.Require("split_accepted_bodies_checked", n/16)
 }
 
@@ -845,6 +865,9 @@ func readerCase(r *mon.Run, i int, op string) {
 	}
 	if rnd.Intn(2) == 0 {
 		reuseCheck(r, i, rnd, op, I, pl, res, streaming, payload, report)
+	}
+	if rnd.Intn(2) == 0 {
+		persistentErrorCheck(r, i, rnd, op, seed, I, pl, payload)
 	}
 	if !res.OK {
 		return
